@@ -33,8 +33,7 @@ ASSUMPTIONS = [
     "the reference -- other points are skipped and counted",
     "real sparse matrix with complex right-hand side is documented as unsupported (LinSolve raises TypeError for it; "
     "SuperLU refuses the cast): executed, recorded under observed_only, never judged",
-    "the CG initial guess is given in the dtype of the solution (complex iff A or b is complex); a real guess for a "
-    "complex problem is executed and recorded under observed_only only",
+    "the CG initial guess is given in the dtype of the solution, and additionally as a REAL zero vector for complex problems (a real guess is \"a given initial guess\" of the statement: judged)",
     "'precision of b' is read as: float64/complex128 data gives a float64/complex128 answer; float32 is not tested",
     "direct solvers: per-column residual <= 1e-9*|b_j| + 1e-12 (ALG); CG: <= 2*tol with the tol the object was given "
     "(zero columns are judged absolutely); CG objects are given maxit = 20 + 2n (exact-arithmetic CG needs <= n "
